@@ -230,16 +230,40 @@ static void families_1d(unsigned long long& unit, Stats& st)
 			objs.push_back({"cosh_c" + mc::dec(c) + "_w" + mc::dec(w), [c, w](ld x) { return coshl(w * (x - c)); }, c, [w](ld E) { return sqrtl(2 * E) / w; }});
 	for(double r0 : {1.0, 3.4, 1e-3})
 		objs.push_back({"lennard_jones_r" + mc::dec(r0), [r0](ld x) { ld q = r0 / x; ld q6 = powl(q, 6); return q6 * q6 - 2 * q6; }, r0, [r0](ld E) { return sqrtl(2 * E / (72 / ((ld)r0 * r0))); }});
+	// asymmetric and non-quadratic unimodal wells on the whole line (the parabolic steps of the bracketing and of Brent's method see
+	// unequal slopes on the two sides); these are started from a sweep of (a, b) pairs
+	size_t first_sweep = objs.size();
+	objs.push_back({"pseudo_huber", [](ld x) { return sqrtl(1 + x * x); }, 0, [](ld E) { return sqrtl(2 * E + E * E); }});
+	objs.push_back({"huber", [](ld x) { return fabsl(x) <= 1 ? x * x / 2 : fabsl(x) - 0.5L; }, 0, [](ld E) { return sqrtl(2 * E); }});
+	objs.push_back({"exp_minus_x", [](ld x) { return expl(x) - x; }, 0, [](ld E) { return sqrtl(2 * E) * 1.5L; }});
+	objs.push_back({"x_plus_exp_minus_2x", [](ld x) { return x + expl(-2 * x) / 2; }, 0, [](ld E) { return sqrtl(E) * 1.5L; }});
+	objs.push_back({"skew_kink", [](ld x) { return x < 0 ? -3 * x : x; }, 0, [](ld E) { return E; }});
+	objs.push_back({"skew_quadratic", [](ld x) { return x < 0 ? 8 * x * x : x * x / 2; }, 0, [](ld E) { return sqrtl(2 * E); }});
+	objs.push_back({"morse_c2", [](ld x) { ld t = 1 - expl(-(x - 2)); return t * t; }, 2, [](ld E) { return sqrtl(E) * 1.5L; }});
 	if(mc::shard0()) mc::alphabet("objectives_1d", objs.size());
 	long long cases = 0;
-	for(auto& o : objs)
+	for(size_t oi = 0; oi < objs.size(); oi++)
 	{
+		auto& o = objs[oi];
 		if(!mc::mine(unit++)) continue;
 		bool lj = o.name.rfind("lennard", 0) == 0;
 		ld sc	= lj ? o.xmin : 1;
 		std::vector<std::pair<ld, ld>> starts = {{o.xmin + 0.3L * sc, o.xmin + 0.4L * sc}, {o.xmin + 0.4L * sc, o.xmin + 0.3L * sc}, {o.xmin - 0.2L * sc, o.xmin + 0.1L * sc}, {o.xmin + 0.5L * sc, o.xmin + 0.5L * sc * (1 + 1e-6L)}};
-		if(!lj) { starts.push_back({o.xmin + 40, o.xmin + 41}); starts.push_back({o.xmin - 1e3L, o.xmin - 999}); }
+		if(!lj)
+		{
+			// far starts only where the objective still has a slope in binary64 (a tail that is constant to rounding is not unimodal for the routine)
+			for(auto fs : std::vector<std::pair<ld, ld>>{{o.xmin + 40, o.xmin + 41}, {o.xmin - 1e3L, o.xmin - 999}})
+				if(std::fabs((double)o.f(fs.first) - (double)o.f(fs.second)) > 1e-6 * std::fabs((double)o.f(fs.first))) starts.push_back(fs);
+		}
 		else starts.push_back({o.xmin * 2.5L, o.xmin * 2.4L});
+		if(oi >= first_sweep || lj)
+			for(ld a : {-0.9L, -0.5L, -0.2L, 0.1L, 0.3L, 0.7L, 1.5L, 4.0L, 10.0L})
+				for(ld d : {-2.0L, -0.5L, -0.1L, -0.01L, 0.01L, 0.1L, 0.5L, 2.0L})
+				{
+					ld A = o.xmin + a * sc * (lj ? 0.5L : 1), B = A + d * sc * (lj ? 0.5L : 1);
+					if(lj && (A <= 0.55L * o.xmin || B <= 0.55L * o.xmin)) continue;	// the repulsive wall overflows
+					starts.push_back({A, B});
+				}
 		for(auto& s : starts)
 			for(double tol : {1e-3, 1e-6, 3e-8, 1e-10, 1e-12})
 			{
@@ -260,6 +284,7 @@ static void families_1d(unsigned long long& unit, Stats& st)
 				ld E	 = 16 * mc::U_ * (fabsl(fstar) + fabsl((ld)(double)o.f(r) - fstar)) + 1e-300L;
 				ld bound = 4 * ((ld)tol * fabsl(o.xmin) + 2.3e-16L) + 4 * o.width(E) + 8 * mc::U_ * fabsl(o.xmin);
 				ld dist	 = fabsl((ld)r - o.xmin);
+				if(lj) dist = std::min(dist, fabsl((ld)r + o.xmin));	// the 12-6 potential is even: the mirror well is a global minimiser as well
 				std::string ck = o.name + "|start=" + mc::dec((double)s.first) + "," + mc::dec((double)s.second) + ",tol=" + mc::dec(tol);
 				if(!(dist <= bound)) mc::violation("families1d", "families1d|" + ck + "|not_within_tolerance_of_minimiser", "returned " + mc::dec(r) + " minimiser " + mc::dec((double)o.xmin) + " distance " + mc::dec((double)dist) + " bound " + mc::dec((double)bound), g_current);
 				else mc::maxi("dist_over_bound_1d", (double)(dist / bound));
